@@ -292,7 +292,7 @@ func main() {
 		fatal("%v", err)
 	}
 	for _, e := range ents {
-		if e.IsDir() || !strings.HasSuffix(e.Name(), ".go") || strings.HasSuffix(e.Name(), "_test.go") {
+		if e.IsDir() || !(strings.HasSuffix(e.Name(), ".go") || strings.HasSuffix(e.Name(), ".s")) || strings.HasSuffix(e.Name(), "_test.go") {
 			continue
 		}
 		b, err := os.ReadFile(filepath.Join(*simrt, e.Name()))
@@ -1239,6 +1239,7 @@ func (rw *rewriter) goStmt(g *ast.GoStmt) ast.Stmt {
 	tok := ast.NewIdent("zzTok" + sid.Value)
 	getTok := &ast.AssignStmt{Lhs: []ast.Expr{tok}, Tok: token.DEFINE, Rhs: []ast.Expr{call("Spawn", sid)}}
 	start := stmt(call("Start", tok, sid))
+	gone := &ast.DeferStmt{Call: call("Done")}
 
 	if fl, ok := g.Call.Fun.(*ast.FuncLit); ok {
 		saved := rw.curFunc
@@ -1248,7 +1249,7 @@ func (rw *rewriter) goStmt(g *ast.GoStmt) ast.Stmt {
 		for i := range g.Call.Args {
 			g.Call.Args[i] = rw.expr(g.Call.Args[i])
 		}
-		fl.Body.List = append([]ast.Stmt{start}, fl.Body.List...)
+		fl.Body.List = append([]ast.Stmt{start, gone}, fl.Body.List...)
 		return &ast.BlockStmt{List: []ast.Stmt{getTok, g}}
 	}
 
@@ -1290,7 +1291,7 @@ func (rw *rewriter) goStmt(g *ast.GoStmt) ast.Stmt {
 	} else {
 		inner.Ellipsis = 1
 	}
-	lit := &ast.FuncLit{Type: &ast.FuncType{Params: &ast.FieldList{}}, Body: &ast.BlockStmt{List: []ast.Stmt{start, stmt(inner)}}}
+	lit := &ast.FuncLit{Type: &ast.FuncType{Params: &ast.FieldList{}}, Body: &ast.BlockStmt{List: []ast.Stmt{start, gone, stmt(inner)}}}
 	return &ast.BlockStmt{List: []ast.Stmt{
 		getTok,
 		&ast.AssignStmt{Lhs: lhs, Tok: token.DEFINE, Rhs: rhs},
